@@ -846,7 +846,9 @@ func (r *svgRec) Poly(vs [][]float64) {
 	}
 	r.add("poly", "", f...)
 }
-func (r *svgRec) Ellipse(x, y, rx, ry, rot, sa, ea float64) { r.add("ellipse", "", x, y, rx, ry, rot, sa, ea) }
+func (r *svgRec) Ellipse(x, y, rx, ry, rot, sa, ea float64) {
+	r.add("ellipse", "", x, y, rx, ry, rot, sa, ea)
+}
 func (r *svgRec) Font(props map[string]any) {
 	m := map[string]any{}
 	for k, v := range props {
